@@ -38,6 +38,10 @@ WHY = {
     "C03-3": "the SHA-256 message padding of `compact_value` is length arithmetic (`> 56` vs `>= 56`); C03 states it does not decide it",
     "C08-1": "an unsound *equal-width* fast path in `Value::prune`: whether two types of equal width are interchangeable is a semantic fact about types, not a shape (C10 does not decide pruning's results)",
     "C15-1": "annex detection is a predicate on runtime byte strings (`len > 1`); C15 does not decide it",
+    "C10-4": "a wrong byte index in `right_shift_1` (`bit_offset / 8` instead of `new_bit_offset / 8`): bit-level arithmetic, which C10 states it does not decide",
+    "C15-4": "`genesis_hash` read from the sibling field `referenced_block` of `elements::PeginData`: the field list of a foreign-crate type is not among the extracted facts, so there is no sibling to compare names with",
+    "C15-5": "`nonce_array` treats an explicit nonce as absent: a predicate on a runtime value (`is_confidential` vs `!is_null`)",
+    "C16-7": "threshold satisfaction uses `any` instead of `all`: the and/or/threshold satisfaction logic is runtime behaviour that C16 states it does not decide",
     "C15-3": "`branch_len` computed by dividing by 33 instead of 32: arithmetic on a runtime length; no same-typed sibling to compare its source with",
 }
 ml = []
